@@ -390,6 +390,12 @@ def loop_writes(eng, loop, st):
                     locals_mod.add(key)
         except Exception:
             ctx().note("frame-resolve", eng.where(loop), p)
+    # the assumed contract of gpyreg's GP.fit / GP.update(hyp=) consumes the ghost fault budget
+    for n in _walk(body):
+        if isinstance(n, ast.Call) and isinstance(n.func, ast.Attribute):
+            kws = {k.arg for k in n.keywords}
+            if (n.func.attr == "fit" and {"hyp0", "options"} <= kws) or (n.func.attr == "update" and "hyp" in kws):
+                heap.add("ghost.fault_budget")
     # ghost variables updated by hooks attached to statements of the body
     cc = getattr(eng, "cur_contract", None)
     if cc is not None and getattr(cc, "hooks", None) and eng.inline_depth == 0:
